@@ -26,9 +26,9 @@ claimed = {
  "C07": dict(cat="exploration", tech="deterministic simulation of the whole UCI engine: lock-step scheduler over the 3 real threads, simulated clock, seeded GUI with fault injection",
    text="The real reader loop, parser, Engine::accept, mpsc channel, search thread and console writer run under a lock-step scheduler that decides which thread proceeds and at which poll (node count) each GUI line becomes visible; the clock is simulated (node cost 1 ns..100 ms, forward/backward jumps). Seeded sessions of 1-8 position/go cycles on one engine with every go-parameter subset/order, stop/quit/noise/corrupted lines during search, stop queued before go is dequeued, follow-your-own-PV games, already-threefold roots, move numbers up to 9000. Oracle per cycle: exactly one bestmove, legal in the last accepted position, inside searchmoves, never 0000 unless no legal move; no thread panic; liveness in negamax nodes after the last fault.", ref="5/C07", note="ENGINE"),
  "C08": dict(cat="exploration", tech="EngineSim sessions with randomised knobs vs. reference alpha-beta minimax (engine's own leaf evaluation through a hook)",
-   text="Every depth-limited cycle (d<=3, and 2N-1 on reference-proven mates in N<=3) of a seeded multi-cycle session on ONE engine instance - whatever was searched before, with TT capacity down to 1, varying poll cadence and node cost - must report exactly the value of an independent fail-soft alpha-beta search without TT/killers/PV reuse over the reference move generator, and the announced move must attain it; positive mate scores must come with a legal PV of 2N-1 plies ending in mate.", ref="5/C08", note="ENGINE"),
+   text="Every depth-limited cycle (d<=3, and 2N-1 on reference-proven mates in N<=3) of a seeded multi-cycle session on ONE engine instance - whatever was searched before, with TT capacity down to 1, varying poll cadence and node cost - must report exactly the value of an independent fail-soft alpha-beta search without TT/killers/PV reuse over the reference move generator, and the announced move must attain it; positive mate scores must come with a legal PV of 2N-1 plies ending in mate; forced mates in N=1..3 (270 reference-proven positions, both colours) must be announced as mate N by the depth 2N-1 search with a mating first move; sessions re-search the same position at smaller depth and walk shuffling games as bare FENs so that tables/history carried over on the instance cannot change a value.", ref="5/C08 and 14", note="ENGINE"),
  "C09": dict(cat="fault_enumeration", tech="enumeration of every interruption point (poll) of a search x {stop, quit, simulated movetime expiry} under the lock-step scheduler",
-   text="For each seeded plan a dry run lists every node count at which the abort flag can be observed (poll interval 512: all plies, iterations 2..5); the plan is re-executed once per point and interrupt kind, followed by go depth 1 without position, two more interrupted searches and go depth 1 again. Oracle: at every idle point the search thread's board (read back through the hook) equals the last accepted position in all six FEN fields; follow-up depth-1 score equals the exact reference value; interrupted searches answer one bestmove equal to the first move of the last reported PV; quit joins.", ref="5/C09", note="ENGINE"),
+   text="For each seeded plan a dry run lists every node count at which the abort flag can be observed (poll interval 512: all plies, iterations 2..5); the plan is re-executed once per point and interrupt kind, followed by go depth 1 without position, two more interrupted searches and go depth 1 again. Oracle: at every idle point the search thread's board (read back through the hook) equals the last accepted position in all six FEN fields; follow-up depth-1 score equals the exact reference value; interrupted searches answer one bestmove equal to the first move of the last reported PV; quit joins. Seven of eight runs are generic fault-injecting sessions (stop/quit/clock expiry at seeded polls, stop queued behind go, a position command arriving during the search, redundant stops while idle, forced-repetition games) judged by the same read-back oracle; a failed follow-up search is a C09 violation.", ref="5/C09 and 14", note="ENGINE"),
  "C15": dict(cat="exploration", tech="seeded corruption/duplication/truncation of lines on the GUI->engine text seam through the real reader loop (LineSim) + engine sessions",
    text="300-600 lines per run (grammar-generated with random spacing and parameter order, token/byte-mutated, arbitrary bytes) travel through the real ConsoleUciRx read seam; each parse result is compared with a reference parser (exactly / must-be-error / unspecified); all 64x64x6 move texts round-trip; a panic is observed as what it is in production (the reader dies). One run in eight is a full engine session so that a misread shows by its effect and the session must stay live afterwards.", ref="5/C15", note="LINE"),
  "C16": dict(cat="exploration", tech="EngineSim: two writer threads on one output stream under the lock-step scheduler, multi-cycle sessions with carried state",
